@@ -285,7 +285,7 @@ pub enum CaseEnd {
 
 /// Run cases `0..n` in forked children. `f(i, out)` runs case i and appends its result record to
 /// `out`. A child that dies is replaced by a fresh one that continues after the fatal case.
-pub fn run_batch<F: Fn(usize, &mut Vec<u8>)>(n: usize, cpu_secs: u64, f: F) -> Vec<CaseEnd> {
+pub fn run_batch<F: Fn(usize, &mut Vec<u8>)>(n: usize, cpu_secs: u64, cpu_alone_secs: u64, f: F) -> Vec<CaseEnd> {
     const AREA: usize = 16 << 20;
     let mut ends: Vec<Option<CaseEnd>> = (0..n).map(|_| None).collect();
     let mut start = 0usize;
@@ -347,10 +347,10 @@ pub fn run_batch<F: Fn(usize, &mut Vec<u8>)>(n: usize, cpu_secs: u64, f: F) -> V
                 let cur = sh.u64_at(0) as usize;
                 let cur = cur.max(done).min(n - 1);
                 if sig == libc::SIGXCPU || sig == libc::SIGKILL {
-                    // re-run alone with 10x the limit
+                    // re-run alone with its own (generous) limit
                     let sh2 = Shared::new(1 << 20);
                     sh2.set_u64(1, 0);
-                    let e2 = in_child(cpu_secs * 10, 900, || {
+                    let e2 = in_child(cpu_alone_secs, 900, || {
                         let mut out = Vec::new();
                         f(cur, &mut out);
                         let s = sh2.slice();
